@@ -186,7 +186,7 @@ def _sp(shards):
 
 QUERIES.append(
     {"name": "Q17p", "fn": q17p,
-     "shards": {"quick": _sp([{"scen": "chain", "cores": 1, "steps": 2}, {"scen": "fork", "cores": 2, "steps": 2}]),
+     "shards": {"quick": _sp([{"scen": "chain", "cores": 1, "steps": 2}, {"scen": "fork", "cores": 2, "steps": 2}, {"scen": "fork", "cores": 1, "steps": 2}]),
                 "thorough": _sp([{"scen": s, "cores": c, "steps": 3} for s in ("chain", "fork", "join", "late") for c in (1, 2)])},
      "timeout": {"quick": 900, "thorough": 3000},
      "bound": "the real worker pool (vf/props/localpool.py): event scripts containing a cancel request for any task (waiting for a dependency, for a core, running, finished): only that task and the tasks depending on it end cancelled; "
